@@ -271,7 +271,7 @@ def judge_selftest(chk, rows, cases):
     for row in rows:
         c = cases[row["id"]]
         if (c["kind"] == "main" and c["t"] == 1 and c["sno"] != 2 and len(row["acc"]) == 1
-                and len(row["acc"][0]["scen"]) >= 2 and all(blk["tags"] for blk in row["o"]["blocks"])):
+                and len(row["acc"][0]["scen"]) >= 2 and all(blk["tags"] and u"<" not in txt(blk["name"]) for blk in row["o"]["blocks"])):
             good = row
             break
     if good is None:
